@@ -112,7 +112,7 @@ pub fn read_cases(path: &str) -> Vec<(String, Case)> {
 /// entry point of every gen_cXX binary
 pub fn harness_main(
     generate: impl Fn(&mut Rng, Tier, &mut Vec<Case>),
-    execute: impl Fn(&Case, &mut Vec<String>),
+    execute: impl Fn(&Case, &mut Vec<String>) + Sync,
 ) {
     let args: Vec<String> = std::env::args().collect();
     let mode = args.get(1).map(|s| s.as_str()).unwrap_or("");
@@ -155,7 +155,27 @@ pub fn harness_main(
                 std::fs::write(&progress, format!("{pos} {id}\n")).unwrap();
                 // observations made before a panic are kept; the panic itself is an observation
                 let mut obs: Vec<String> = Vec::new();
-                if catch_unwind(AssertUnwindSafe(|| execute(c, &mut obs))).is_err() {
+                // every case runs on a thread of its own (64 MiB stack): whatever the library might keep per
+                // thread - a memo table, a scratch buffer (seeded change C20-r4m2: a thread-local Pascal table
+                // that is only damaged by a particular order of calls and healed by any n = 64 query) - starts
+                // fresh and is built up in the order of the case's own operations.  TBX_SAME_THREAD=1 restores
+                // in-line execution.
+                let same_thread = std::env::var_os("TBX_SAME_THREAD").is_some();
+                let panicked = if same_thread {
+                    catch_unwind(AssertUnwindSafe(|| execute(c, &mut obs))).is_err()
+                } else {
+                    let obs_ref = &mut obs;
+                    let exec_ref = &execute;
+                    std::thread::scope(|s| {
+                        std::thread::Builder::new()
+                            .stack_size(64 << 20)
+                            .spawn_scoped(s, move || catch_unwind(AssertUnwindSafe(|| exec_ref(c, obs_ref))).is_err())
+                            .expect("spawn case thread")
+                            .join()
+                            .unwrap_or(true)
+                    })
+                };
+                if panicked {
                     obs.push("PANIC".to_string());
                 }
                 writeln!(w, "CASE {id} {}", c.family).unwrap();
